@@ -156,6 +156,9 @@ func doHTTP(toks map[string]string) string {
 	case <-time.After(deadline):
 		return "hang"
 	}
+	if os.Getenv("VERIF_C28_BODY") != "" {
+		fmt.Fprintf(os.Stderr, "%d %s\n", rw.status, strings.TrimSpace(rw.body.String()[:min(rw.body.Len(), 400)]))
+	}
 	if !rw.wrote {
 		return "ok 200" // net/http sends an implicit 200
 	}
